@@ -118,7 +118,7 @@ func init() {
 // alike, duplicate keys, and expression keys).
 func drawHashLiteral(rt *rapid.T, depth int) string {
 	n := rapid.IntRange(2, 8).Draw(rt, "npairs")
-	keys := []string{`"a"`, `"b"`, `"c"`, `1`, `"1"`, `1.0`, `2`, `"2"`, `2.5`, `"2.5"`, `(-1)`, `"-1"`, `"a" + "b"`, `1 + 1`, `"k" + string(1)`, `"Name"`, `10`, `"10"`, `9`}
+	keys := []string{`"a"`, `"b"`, `"c"`, `1`, `"1"`, `1.0`, `2`, `"2"`, `2.5`, `"2.5"`, `(-1)`, `"-1"`, `"a" + "b"`, `1 + 1`, `"k" + string(1)`, `"Name"`, `10`, `"10"`, `9`, `"a\nb"`, `"a\\nb"`, `"t\tx"`, `"t\\tx"`}
 	vals := []string{`1`, `2`, `"x"`, `"y"`, `true`, `[1, 2]`, `1.5`, `len("abc")`, `"v" + "w"`}
 	var parts []string
 	for i := 0; i < n; i++ {
@@ -163,6 +163,18 @@ func drawDetCase(rt *rapid.T) (*DetCase, bool) {
 		hv := gen.HashValue(rt, "fieldhash", gen.ValueOpts{Depth: 2, FieldSafe: true})
 		c.Obj = &eng.ObjSpec{Mode: "map", Fields: []eng.Field{{Name: "M", V: hv}, {Name: "N", V: lang.Int(3)}}}
 		b.WriteString("trace(keys(M), string(M));\nforeach k, v in M { trace(k, v); }\n")
+	}
+	// several small functions whose bodies the optimizer treats differently
+	// (foldable arithmetic, constant conditions, constant division by zero)
+	if rapid.Bool().Draw(rt, "optfuncs") {
+		bodies := []string{"return 1 / 0;", "return 2 + 3;", "x = 4 * 5; return x - 1;", "if (1 == 1) { return 1; } return 2;", "return 7 / (3 - 3);",
+			"return 6 / 2 + 1;", "if (2 != 2) { return 9; } else { return 8; }", "y = 10 - 3 * 2; return y == 4;", "return [1 + 1, 2 * 2, 9 / 3];", "while (1 == 2) { z = 1; } return 0;"}
+		nf := rapid.IntRange(2, 6).Draw(rt, "noptfuncs")
+		for i := 0; i < nf; i++ {
+			fmt.Fprintf(&b, "function of%d() { %s }\n", i, rapid.SampledFrom(bodies).Draw(rt, "optbody"))
+		}
+		fmt.Fprintf(&b, "trace(of%d());\n", gen.Uniform(rt, "callopt", nf))
+		nontrivial = true
 	}
 	// a generated program with several functions and constants
 	if rapid.Bool().Draw(rt, "withprogram") {
